@@ -7,7 +7,7 @@ func init() {
 				"structure only, with the third-party transform as uninterpreted functions: lists of 0..3 points with arbitrary real longitude and altitude and a latitude chosen per point from {12.5, -33.25}, EPSG codes 3857, 900913, 4978, 3035 and 31287 (known) and 0, 1, 3858 (unknown)",
 				"decided: list length and order, that X and Y are the first two results of transform(4326 -> code) applied to (lon, lat, alt) in that argument order (and code -> 4326 for the inverse), that the altitude is the input altitude and not the transform's third result, that any transform error or unknown code is a conversion error",
 			},
-			Outside: []string{"that EPSG:3857 is spherical Mercator on radius 6378137 m and that the round trip is within 2e-10 degrees (third-party transcendental code: wgs84)", "lists longer than 3", "EPSG codes other than the listed ones"},
+			Outside:     []string{"that EPSG:3857 is spherical Mercator on radius 6378137 m and that the round trip is within 2e-10 degrees (third-party transcendental code: wgs84)", "lists longer than 3", "EPSG codes other than the listed ones"},
 			Assumptions: []string{"wgs84.SafeTransform is a deterministic function of (from, to, a, b, c) without side effects; wgs84.EPSG().Code(c) is nil exactly for codes missing from the table in the library's epsg.go (read at run time)"},
 		},
 		insts: func(tier string) []*Instance {
